@@ -321,6 +321,8 @@ struct Query
 {
     int start, goal;
     double sx, sy, gx, gy;  // exact coordinates (recognizable: no sampler reproduces them)
+    // additional start / goal states (cell, x, y): several starts, a GoalStates goal
+    std::vector<std::tuple<int, double, double>> xs, xg;
 };
 
 static long budgetValue(const std::string &k)
@@ -378,6 +380,20 @@ static void runLifecycle(const std::vector<Entry> &reg, const json &job, vt::Tra
         q.sy = w.cy(q.start) + (jit.unit() - 0.5) * 0.6;
         q.gx = w.cx(q.goal) + (jit.unit() - 0.5) * 0.6;
         q.gy = w.cy(q.goal) + (jit.unit() - 0.5) * 0.6;
+        // now and then several start states (some possibly invalid) or several goal states
+        int variant = jit.below(7);
+        if (variant == 0 && !(e->flags & F_SINGLESTART))
+            for (int k = 0; k < 2; ++k)
+            {
+                int c = jit.below(w.W * w.H);
+                q.xs.emplace_back(c, w.cx(c) + (jit.unit() - 0.5) * 0.6, w.cy(c) + (jit.unit() - 0.5) * 0.6);
+            }
+        else if (variant == 1)
+            for (int k = 0; k < 2; ++k)
+            {
+                int c = jit.below(w.W * w.H);
+                q.xg.emplace_back(c, w.cx(c) + (jit.unit() - 0.5) * 0.6, w.cy(c) + (jit.unit() - 0.5) * 0.6);
+            }
         return q;
     };
     std::map<std::string, ob::ProblemDefinitionPtr> pdefs;
@@ -395,14 +411,46 @@ static void runLifecycle(const std::vector<Entry> &reg, const json &job, vt::Tra
         s[1] = q.sy;
         g[0] = q.gx;
         g[1] = q.gy;
+        // extra starts go in front (the first ones may be invalid: the planner has to skip them)
+        for (auto &x : q.xs)
+        {
+            ob::ScopedState<> xsd(space);
+            xsd[0] = std::get<1>(x);
+            xsd[1] = std::get<2>(x);
+            pd->addStartState(xsd);
+        }
         pd->addStartState(s);
-        auto gs = std::make_shared<ob::GoalState>(si);
-        gs->setState(g);
-        if (thr > 0)
-            gs->setThreshold(thr);
-        pd->setGoal(gs);
+        if (q.xg.empty())
+        {
+            auto gs = std::make_shared<ob::GoalState>(si);
+            gs->setState(g);
+            if (thr > 0)
+                gs->setThreshold(thr);
+            pd->setGoal(gs);
+        }
+        else
+        {
+            auto gs = std::make_shared<ob::GoalStates>(si);
+            for (auto &x : q.xg)
+            {
+                ob::ScopedState<> xgd(space);
+                xgd[0] = std::get<1>(x);
+                xgd[1] = std::get<2>(x);
+                gs->addState(xgd);
+            }
+            gs->addState(g);
+            if (thr > 0)
+                gs->setThreshold(thr);
+            pd->setGoal(gs);
+        }
         cur[p] = q;
         past.push_back(q);
+    };
+    auto cellsOf = [](const std::vector<std::tuple<int, double, double>> &v) {
+        json a = json::array();
+        for (auto &x : v)
+            a.push_back(std::get<0>(x));
+        return a;
     };
     // is (x,y) the exact start or goal of a query other than `now`?
     auto staleCount = [&](const std::vector<std::pair<double, double>> &pts, const Query &now) {
@@ -413,8 +461,13 @@ static void runLifecycle(const std::vector<Entry> &reg, const json &job, vt::Tra
                 bool isNow = (q.sx == now.sx && q.sy == now.sy && q.gx == now.gx && q.gy == now.gy);
                 if (isNow)
                     continue;
-                if ((pt.first == q.sx && pt.second == q.sy && !(pt.first == now.sx && pt.second == now.sy)) ||
-                    (pt.first == q.gx && pt.second == q.gy && !(pt.first == now.gx && pt.second == now.gy)))
+                bool hit = (pt.first == q.sx && pt.second == q.sy && !(pt.first == now.sx && pt.second == now.sy)) ||
+                           (pt.first == q.gx && pt.second == q.gy && !(pt.first == now.gx && pt.second == now.gy));
+                for (auto &x : q.xs)
+                    hit = hit || (pt.first == std::get<1>(x) && pt.second == std::get<2>(x));
+                for (auto &x : q.xg)
+                    hit = hit || (pt.first == std::get<1>(x) && pt.second == std::get<2>(x));
+                if (hit)
                 {
                     ++n;
                     break;
@@ -453,6 +506,8 @@ static void runLifecycle(const std::vector<Entry> &reg, const json &job, vt::Tra
             ev["p"] = p;
             ev["start"] = q.start;
             ev["goal"] = q.goal;
+            ev["xstarts"] = cellsOf(q.xs);
+            ev["xgoals"] = cellsOf(q.xg);
         }
         else if (a == "Clear")
             planner->clear();
@@ -490,8 +545,10 @@ static void runLifecycle(const std::vector<Entry> &reg, const json &job, vt::Tra
             ev["obst"] = job["obst"];
             ev["start"] = q.start;
             ev["goal"] = q.goal;
+            ev["xstarts"] = cellsOf(q.xs);
+            ev["xgoals"] = cellsOf(q.xg);
             ev["thr"] = thr > 0 ? "cell" : "tiny";
-            ev["thrMicro"] = fx(dynamic_cast<ob::GoalState *>(pd->getGoal().get())->getThreshold());
+            ev["thrMicro"] = fx(dynamic_cast<ob::GoalRegion *>(pd->getGoal().get())->getThreshold());
             ev["res"] = fx(pr.resolutionLength);
             ev["pairs"] = (e->flags & F_PAIRS) != 0;
             ev["status"] = statusName(st);
